@@ -15,7 +15,9 @@ package c18
 import (
 	"bytes"
 	"context"
+	"errors"
 	"fmt"
+	"io"
 	"os"
 	"sort"
 	"sync"
@@ -25,7 +27,9 @@ import (
 	"github.com/jamf/regatta/regattapb"
 	"github.com/jamf/regatta/replication/backup"
 	"google.golang.org/grpc"
+	"google.golang.org/grpc/codes"
 	"google.golang.org/grpc/credentials/insecure"
+	"google.golang.org/grpc/status"
 	"pgregory.net/rapid"
 
 	"verifharness/internal/binfx"
@@ -325,7 +329,10 @@ func runWireCase(c WireCase, o *vt.Obs) *vt.Failure {
 		}
 		defer os.RemoveAll(dir)
 		// the client `regatta backup` / `regatta restore` build: default call options
-		conn, err := grpc.NewClient("passthrough:///"+p.API, grpc.WithTransportCredentials(insecure.NewCredentials()))
+		// (the interceptor changes nothing on the wire: it only asks a stream that refused a Send for the status behind the bare io.EOF,
+		// which the stock client returns as it is)
+		diag := &streamDiag{}
+		conn, err := grpc.NewClient("passthrough:///"+p.API, grpc.WithTransportCredentials(insecure.NewCredentials()), grpc.WithStreamInterceptor(diag.intercept))
 		if err != nil {
 			vt.Inconclusive("C18 dial: " + err.Error())
 			return nil
@@ -367,7 +374,16 @@ func runWireCase(c WireCase, o *vt.Obs) *vt.Failure {
 			if f := died(); f != nil || !p.Alive() {
 				return f
 			}
-			return vt.Failf(prop+"/wire-restore-error", 0, "restore of table %q with the stock client failed: %v", name, err)
+			if hidden := diag.last(); errors.Is(err, io.EOF) && hidden != nil {
+				// the server ended the call while the client was still sending; the status says why
+				switch status.Code(hidden) {
+				case codes.DeadlineExceeded, codes.Canceled, codes.Unavailable:
+					vt.Inconclusive(fmt.Sprintf("C18/wire-restore-error: restore of table %q ended early by the server: %v", name, hidden))
+					return nil
+				}
+				err = fmt.Errorf("%v (status behind it: %v)", err, hidden)
+			}
+			return vt.Failf(prop+"/wire-restore-error", 0, "restore of table %q with the stock client failed: %v\nserver log tail:\n%s", name, err, p.LogTail(1500))
 		}
 		if err := p.WaitTable(name, 60*time.Second); err != nil {
 			vt.Inconclusive("C18 restored table: " + err.Error())
@@ -389,6 +405,44 @@ func runWireCase(c WireCase, o *vt.Obs) *vt.Failure {
 	}
 	o.Describe = func() string { return fmt.Sprintf("%+v", c) }
 	return nil
+}
+
+// streamDiag remembers the status of a client stream whose Send was refused (gRPC reports io.EOF there, the status only to a receive).
+type streamDiag struct {
+	mu  sync.Mutex
+	err error
+}
+
+func (d *streamDiag) last() error {
+	d.mu.Lock()
+	defer d.mu.Unlock()
+	return d.err
+}
+
+func (d *streamDiag) intercept(ctx context.Context, desc *grpc.StreamDesc, cc *grpc.ClientConn, method string, streamer grpc.Streamer, opts ...grpc.CallOption) (grpc.ClientStream, error) {
+	cs, err := streamer(ctx, desc, cc, method, opts...)
+	if err != nil {
+		return cs, err
+	}
+	return &diagStream{ClientStream: cs, d: d}, nil
+}
+
+type diagStream struct {
+	grpc.ClientStream
+	d *streamDiag
+}
+
+func (s *diagStream) SendMsg(m any) error {
+	err := s.ClientStream.SendMsg(m)
+	if errors.Is(err, io.EOF) {
+		var resp regattapb.RestoreResponse
+		if rerr := s.ClientStream.RecvMsg(&resp); rerr != nil && !errors.Is(rerr, io.EOF) {
+			s.d.mu.Lock()
+			s.d.err = rerr
+			s.d.mu.Unlock()
+		}
+	}
+	return err
 }
 
 type quietLog struct{}
